@@ -32,6 +32,16 @@ inductive GoResult
   | panic               -- an `unwrap()` failed (missing or unparsable value)
   deriving Repr, DecidableEq
 
+/-- how the argument scan can end without reaching the search -/
+inductive ScanStop
+  | nosearch
+  | panic
+  deriving Repr, DecidableEq
+
+def ScanStop.toResult : ScanStop → GoResult
+  | .nosearch => .nosearch
+  | .panic => .panic
+
 /-- `i64` division as Rust does it (truncating; division by zero and MIN / -1 panic) -/
 def rustDiv (a b : Int) : Option Int :=
   if b == 0 then none else if a == i64lo && b == -1 then none else some (Int.tdiv a b)
@@ -58,18 +68,18 @@ def decideTimeLegacy (a : GoArgs) : Option Int :=
   else some a.time
 
 /-- the argument scan; `msgs` collects the "Illegal 'go' command" lines printed on the way -/
-def goScan (white : Bool) : Nat → List String → GoArgs → List String → Except (List String × GoResult) (List String × GoArgs)
+def goScan (white : Bool) : Nat → List String → GoArgs → List String → Except (List String × ScanStop) (List String × GoArgs)
   | 0, _, a, msgs => .ok (msgs, a)
   | _, [], a, msgs => .ok (msgs, a)
   | fuel + 1, arg :: rest, a, msgs =>
     if arg == "" then goScan white fuel rest a msgs else
-    let value (k : Int → GoArgs) : Except (List String × GoResult) (List String × GoArgs) :=
+    let value (k : Int → GoArgs) : Except (List String × ScanStop) (List String × GoArgs) :=
       match rest with
       | [] => .error (msgs, .panic)
       | v :: rest' => match parseRustInt v i64lo i64hi with
         | none => .error (msgs, .panic)
         | some n => goScan white fuel rest' (k n) msgs
-    let skip : Except (List String × GoResult) (List String × GoArgs) := goScan white fuel (rest.drop 1) a msgs
+    let skip : Except (List String × ScanStop) (List String × GoArgs) := goScan white fuel (rest.drop 1) a msgs
     match arg with
     | "binc" => if !white then value (fun n => { a with inc := n }) else skip
     | "winc" => if white then value (fun n => { a with inc := n }) else skip
@@ -91,7 +101,7 @@ def goScan (white : Bool) : Nat → List String → GoArgs → List String → E
 def parseGo (white : Bool) (args : String) : List String × GoResult :=
   let toks := args.splitOn " "
   match goScan white (toks.length + 1) toks {} [] with
-  | .error r => r
+  | .error r => (r.1, r.2.toResult)
   | .ok (msgs, a) => match decideTime a with
     | none => (msgs, .panic)
     | some t => (msgs, .search a.depth t)
